@@ -115,6 +115,14 @@ fn routing(rep: &mut Report, n: usize, masks: &[u64]) {
 }
 
 fn listeners(rep: &mut Report, n: usize, masks: &[u64], ids: &[u64]) {
+    listeners_with(rep, n, masks, ids, EventSet::IN);
+    // a listener may be registered for any event set: one that becomes ready without EPOLLIN (a
+    // writable descriptor, one shot) must be delivered with its id just the same
+    let valid: Vec<u64> = ids.iter().cloned().filter(|id| *id > n as u64 && *id <= u16::MAX as u64).collect();
+    listeners_with(rep, n, masks, &valid, EventSet::OUT | EventSet::ONE_SHOT);
+}
+
+fn listeners_with(rep: &mut Report, n: usize, masks: &[u64], ids: &[u64], evset: EventSet) {
     for &id in ids {
         let (h, fds) = match setup(n, masks) {
             Ok(x) => x,
@@ -123,11 +131,12 @@ fn listeners(rep: &mut Report, n: usize, masks: &[u64], ids: &[u64]) {
                 return;
             }
         };
-        let case = json!({"check":"C17","part":"listener","queues":n,"masks":masks,"id":id});
+        let case = json!({"check":"C17","part":"listener","queues":n,"masks":masks,"id":id,"event_set":format!("{evset:?}")});
         let hs = h.daemon.as_ref().unwrap().get_epoll_handlers();
         let lfd = eventfd(0, true);
         h.be.listeners.lock().unwrap().insert(id as u16, lfd.as_raw_fd());
-        let r = hs[0].register_listener(lfd.as_raw_fd(), EventSet::IN, id);
+        h.be.take_dispatches();
+        let r = hs[0].register_listener(lfd.as_raw_fd(), evset, id);
         rep.evaluations += 1;
         rep.transitions += 1;
         let reserved = id <= n as u64;
@@ -147,15 +156,17 @@ fn listeners(rep: &mut Report, n: usize, masks: &[u64], ids: &[u64]) {
             Ok(()) => {
                 if reserved {
                     rep.violation("C17:listener:reserved-id-accepted", &format!("id {id} <= num_queues={n} accepted"), case);
-                    let _ = hs[0].unregister_listener(lfd.as_raw_fd(), EventSet::IN, id);
+                    let _ = hs[0].unregister_listener(lfd.as_raw_fd(), evset, id);
                     continue;
                 }
-                h.be.take_dispatches();
-                kick(&lfd);
+                if evset.contains(EventSet::IN) {
+                    h.be.take_dispatches();
+                    kick(&lfd);
+                }
                 let pr = h.probe(0);
                 let d = h.be.take_dispatches();
                 // stop a possible level-triggered spin before judging
-                let _ = hs[0].unregister_listener(lfd.as_raw_fd(), EventSet::IN, id);
+                let _ = hs[0].unregister_listener(lfd.as_raw_fd(), evset, id);
                 let exact: Vec<_> = d.iter().filter(|x| x.event as u64 == id && x.thread == 0).collect();
                 if pr.is_err() {
                     rep.outcome("listener-killed-worker");
@@ -243,7 +254,7 @@ pub fn run(rep: &mut Report) {
     rep.extra.insert("configurations".into(), json!(configs));
     rep.sample(json!({"queues":3,"masks":["0b101","0b010"],"kicked":2,"expect":{"thread":0,"event":1,"ring_size":8}}));
     rep.sample(json!({"queues":2,"masks":["0b11"],"listener_id":65537,"expect":"refused, or delivered with exactly id 65537"}));
-    rep.rule = "all assignments of n queues to worker masks drawn from all non-empty subsets of n bits (plus masks with bits beyond n for n<=3): 1..=3 workers for n<=3, 1..=2 for n=4 (a structured subset of the pairs at quick); thorough: 1..=3 workers for every n<=5 and 1..=2 workers for n=6; every ring started and enabled with a distinct size, every queue kicked once, barrier on every worker; custom listener ids {0..5, 255, 256, 65535, 65536, 65537, 65538, 2^32+1, 2^32+5, 2^64-1} on two configurations. Non-trivial = kicks whose (thread id, event id, vrings[event id] identity) were verified, listeners delivered with their exact id or refused".into();
+    rep.rule = "all assignments of n queues to worker masks drawn from all non-empty subsets of n bits (plus masks with bits beyond n for n<=3): 1..=3 workers for n<=3, 1..=2 for n=4 (a structured subset of the pairs at quick); thorough: 1..=3 workers for every n<=5 and 1..=2 workers for n=6; every ring started and enabled with a distinct size, every queue kicked once, barrier on every worker; custom listener ids {0..5, 255, 256, 65535, 65536, 65537, 65538, 2^32+1, 2^32+5, 2^64-1} on two configurations, registered for readability and (valid ids) for one-shot writability. Non-trivial = kicks whose (thread id, event id, vrings[event id] identity) were verified, listeners delivered with their exact id or refused".into();
     rep.assumptions.push("rings are distinguished by their configured size (2 << q)".into());
 }
 
